@@ -312,15 +312,27 @@ fn run_xc(out: &mut CaseOut, w: usize, w2: usize) {
         Sig { name: "CK".into(), bits: w, kind: Kind::Bidir(InVal::Val(0)) },
         Sig { name: "O".into(), bits: 1, kind: Kind::Out },
     ];
-    let header: Vec<String> = ["XA", "XB", "CK", "O"].iter().map(|s| s.to_string()).collect();
+    // (for every third width the expected column stands first: an X there is left of the don't-care inputs and passes
+    // through unchanged all the same)
+    let o_first = w % 3 == 0;
+    let mut header: Vec<String> = ["XA", "XB", "CK", "O"].iter().map(|s| s.to_string()).collect();
     let n0 = || Entry::Num(0, Radix::Dec);
-    let stmts = vec![
+    let mut stmts = vec![
         Stmt::Row(0, vec![Entry::X(true), Entry::X(false), n0(), Entry::X(true)]),
         Stmt::Row(1, vec![n0(), n0(), Entry::C(true), Entry::X(true)]),
         Stmt::Row(2, vec![Entry::X(true), n0(), Entry::C(false), Entry::X(true)]),
         // two clocks that are not neighbours: the input between them keeps its value
         Stmt::Row(3, vec![Entry::C(true), Entry::Num(1, Radix::Dec), Entry::C(true), Entry::X(true)]),
     ];
+    if o_first {
+        header.rotate_right(1);
+        for st in stmts.iter_mut() {
+            if let Stmt::Row(_, es) = st {
+                es.rotate_right(1);
+            }
+        }
+        out.class("expected-X-left-of-dont-care-inputs");
+    }
     let text = canonical(&Program { header, stmts }).text;
     let spec = DriverSpec::honest(&sigs, 7, Palette::Small);
     render_case(out, &text, &sigs, Some(&spec));
@@ -336,7 +348,7 @@ fn run_xc(out: &mut CaseOut, w: usize, w2: usize) {
         (0, 1, 0), (1, 1, 1), (0, 1, 0),
     ];
     for (k, (a, b, c)) in want.iter().enumerate() {
-        let Some(RealItem::Row(_)) = real.items.get(k) else {
+        let Some(RealItem::Row(row_k)) = real.items.get(k) else {
             if let Some(RealItem::Panic(p)) = real.items.get(k) {
                 out.fail(p.key(), format!("item {k} panicked: {p}"));
             } else {
@@ -344,6 +356,12 @@ fn run_xc(out: &mut CaseOut, w: usize, w2: usize) {
             }
             return;
         };
+        if let Some(o) = row_k.outputs.iter().find(|o| o.name == "O") {
+            if o.expected != ExpVal::X {
+                out.fail("c07:zx-not-passed-through", format!("item {k}: the expected column O holds X in every row; the row reports the expected value {}", o.expected));
+                return;
+            }
+        }
         let sent = &real.log[k + 1].inputs;
         let get = |n: &str| sent.iter().find(|e| e.0 == n).map(|e| e.1);
         if get("XA") != Some(InVal::Val(*a)) || get("XB") != Some(InVal::Val(*b)) || get("CK") != Some(InVal::Val(*c)) {
